@@ -186,6 +186,8 @@ unsafe impl Sync for BlockAllocator {}
 unsafe impl Send for BlockAllocator {}
 
 pub(super) fn flush_check(file_path: String) {
+    #[cfg(walrus_verif)]
+    let _g = crate::wal::verif::trk_event("flush", 0, &file_path);
     // readiness check fast path; hook actual reclamation later
     if let Some((locked, checkpointed, total, fully_allocated)) =
         FileStateTracker::get_state_snapshot(&file_path)
@@ -193,6 +195,8 @@ pub(super) fn flush_check(file_path: String) {
         let ready_to_delete = fully_allocated && locked == 0 && total > 0 && checkpointed >= total;
         if ready_to_delete {
             if let Some(tx) = DELETION_TX.get() {
+                #[cfg(walrus_verif)]
+                let _g = crate::wal::verif::trk_event("req", 0, &file_path);
                 let _ = tx.send(file_path);
             }
         }
@@ -213,6 +217,8 @@ impl BlockStateTracker {
     }
 
     pub(super) fn register_block(block_id: usize, file_path: &str) {
+        #[cfg(walrus_verif)]
+        let _g = crate::wal::verif::trk_event("register", block_id as u64, file_path);
         let map = Self::map();
         if let Ok(mut w) = map.write() {
             w.entry(block_id).or_insert_with(|| BlockState {
@@ -229,6 +235,8 @@ impl BlockStateTracker {
     }
 
     pub(super) fn set_checkpointed_true(block_id: usize) {
+        #[cfg(walrus_verif)]
+        let _g = crate::wal::verif::trk_event("mark", block_id as u64, "");
         let path_opt = {
             let map = Self::map();
             if let Ok(r) = map.read() {
@@ -266,6 +274,8 @@ impl FileStateTracker {
     }
 
     pub(super) fn register_file_if_absent(file_path: &str) {
+        #[cfg(walrus_verif)]
+        let _g = crate::wal::verif::trk_event("regfile", 0, file_path);
         let map = Self::map();
         let mut w = map.write().expect("file state map write lock poisoned");
         w.entry(file_path.to_string()).or_insert_with(|| FileState {
@@ -277,6 +287,8 @@ impl FileStateTracker {
     }
 
     pub(super) fn add_block_to_file_state(file_path: &str) {
+        #[cfg(walrus_verif)]
+        let _g = crate::wal::verif::trk_event("addblock", 0, file_path);
         Self::register_file_if_absent(file_path);
         let map = Self::map();
         if let Ok(r) = map.read() {
@@ -287,6 +299,8 @@ impl FileStateTracker {
     }
 
     pub(super) fn set_fully_allocated(file_path: String) {
+        #[cfg(walrus_verif)]
+        let _g = crate::wal::verif::trk_event("full", 0, &file_path);
         Self::register_file_if_absent(&file_path);
         let map = Self::map();
         if let Ok(r) = map.read() {
@@ -298,6 +312,8 @@ impl FileStateTracker {
     }
 
     pub(super) fn set_block_locked(block_id: usize) {
+        #[cfg(walrus_verif)]
+        let _g = crate::wal::verif::trk_event("lock", block_id as u64, "");
         if let Some(path) = BlockStateTracker::get_file_path_for_block(block_id) {
             let map = Self::map();
             if let Ok(r) = map.read() {
@@ -309,6 +325,8 @@ impl FileStateTracker {
     }
 
     pub(super) fn set_block_unlocked(block_id: usize) {
+        #[cfg(walrus_verif)]
+        let _g = crate::wal::verif::trk_event("unlock", block_id as u64, "");
         if let Some(path) = BlockStateTracker::get_file_path_for_block(block_id) {
             let map = Self::map();
             if let Ok(r) = map.read() {
@@ -339,4 +357,31 @@ impl FileStateTracker {
         let fully = st.is_fully_allocated.load(Ordering::Acquire);
         Some((locked, checkpointed, total, fully))
     }
+}
+
+/// Read-only snapshot of both trackers for the external verification harness:
+/// (file, locked, checkpointed, total, fully_allocated) and (block id, file, checkpointed flag).
+#[cfg(walrus_verif)]
+pub(crate) fn verif_trk_snapshot() -> (Vec<(String, u16, u16, u16, bool)>, Vec<(usize, String, bool)>) {
+    let mut files = Vec::new();
+    if let Ok(r) = FileStateTracker::map().read() {
+        for (k, st) in r.iter() {
+            files.push((
+                k.clone(),
+                st.locked_block_ctr.load(Ordering::Acquire),
+                st.checkpoint_block_ctr.load(Ordering::Acquire),
+                st.total_blocks.load(Ordering::Acquire),
+                st.is_fully_allocated.load(Ordering::Acquire),
+            ));
+        }
+    }
+    let mut blocks = Vec::new();
+    if let Ok(r) = BlockStateTracker::map().read() {
+        for (k, b) in r.iter() {
+            blocks.push((*k, b.file_path.clone(), b.is_checkpointed.load(Ordering::Acquire)));
+        }
+    }
+    files.sort();
+    blocks.sort();
+    (files, blocks)
 }
